@@ -198,6 +198,8 @@ fn run_spline(cfg: &Cfg) -> ! {
         check_spline::<Point2>(n, seed, r);
         if seed < 3 { check_spline::<Vec3>(n, seed, r); check_spline::<Color3f>(n, seed, r); }
     }));
+    // scale sentinels: splines with many segments (control-point counts beyond 255), approximate() at depth
+    rep.merge(par_range(cfg, 4, |i, r| { let n = [40usize, 85, 100, 300][i as usize]; check_spline::<f32>(n, 1, r); check_spline::<Vec2>(n, 2, r); }));
     // step helpers
     for k in -64..=128 {
         let t = k as f32 / 64.0;
